@@ -75,8 +75,33 @@ func abstractStr(s string) string {
 	return s
 }
 
-const ifaceADesc = "interface a.b\nmethod M() -> ()\n"
-const ifaceBDesc = "interface a.b.c\nmethod M() -> ()\n# é\U0001d11e <>&\n"
+var regNames []string
+
+func descOf(name string) string {
+	return "interface " + name + "\nmethod M() -> ()\n# é\U0001d11e <>&\n"
+}
+
+// "a.U1" -> ["a", ".", "U1"]
+func splitTok(s string) []string {
+	var out []string
+	for i := 0; i < len(s); {
+		if s[i] == 'U' && i+1 < len(s) && s[i+1] >= '1' && s[i+1] <= '9' {
+			out = append(out, s[i:i+2])
+			i += 2
+		} else {
+			out = append(out, s[i:i+1])
+			i++
+		}
+	}
+	return out
+}
+
+func knownName() string {
+	if len(regNames) == 0 {
+		return "org.varlink.service"
+	}
+	return regNames[len(regNames)-1]
+}
 
 // scripted dispatcher: performs the script shipped in the call parameters
 type scripted struct {
@@ -201,9 +226,9 @@ func frameBytes(c string, i int, fr *cFrame, rng *rand.Rand, pad string) []byte 
 					m["parameters"] = map[string]interface{}{}
 				}
 			case "unknown":
-				m["parameters"] = map[string]interface{}{"interface": []string{"no.such", "a.bc", "a", "org.varlink.servic"}[rng.Intn(4)]}
+				m["parameters"] = map[string]interface{}{"interface": []string{"no.such", "a.bc", "a.b.", "org.varlink.servic"}[rng.Intn(4)]}
 			case "known":
-				m["parameters"] = map[string]interface{}{"interface": "a.b.c"}
+				m["parameters"] = map[string]interface{}{"interface": knownName()}
 			}
 		} else {
 			script := fr.Script
@@ -226,7 +251,7 @@ func frameBytes(c string, i int, fr *cFrame, rng *rand.Rand, pad string) []byte 
 	case "badjson":
 		return [][]byte{[]byte(`{"method":"a.b.M",`), []byte(`{"method":"a.b.M"}}`), []byte(`{method:"a.b.M"}`), []byte("\xff\xfe{"), []byte(`{"method":"a.b.M" "parameters":{}}`)}[rng.Intn(5)]
 	case "nonobj":
-		return [][]byte{[]byte(`[1]`), []byte(`5`), []byte(`"a.b.M"`), []byte(`true`), []byte(`[{"method":"a.b.M"}]`)}[rng.Intn(5)]
+		return [][]byte{[]byte(`[1]`), []byte(`57`), []byte(`"a.b.M"`), []byte(`true`), []byte(`[{"method":"a.b.M"}]`)}[rng.Intn(5)]
 	case "wrongtype":
 		return [][]byte{[]byte(`{"method":5}`), []byte(`{"method":"a.b.M","more":1}`), []byte(`{"method":"a.b.M","parameters":{},"oneway":"x"}`), []byte(`{"method":["a.b.M"]}`), []byte(`{"method":{"a":"b"}}`)}[rng.Intn(5)]
 	case "empty":
@@ -245,7 +270,7 @@ func frameBytes(c string, i int, fr *cFrame, rng *rand.Rand, pad string) []byte 
 }
 
 // the byte stream of a scenario, cut into the spec's symbols
-func symbols(c string, sc *cScen, rng *rand.Rand, pad string) [][]byte {
+func symbols(c string, sc *cScen, rng *rand.Rand, pad string, cut1 int) [][]byte {
 	var syms [][]byte
 	for i := range sc.Frames {
 		fr := &sc.Frames[i]
@@ -257,6 +282,9 @@ func symbols(c string, sc *cScen, rng *rand.Rand, pad string) [][]byte {
 			}
 			// nb non-empty chunks at seeded cut points
 			cuts := map[int]bool{}
+			if i == 0 && cut1 > 0 && cut1 < len(b) && nb >= 2 {
+				cuts[cut1] = true
+			}
 			for len(cuts) < nb-1 {
 				cuts[1+rng.Intn(len(b)-1)] = true
 			}
@@ -374,12 +402,12 @@ func (r *connRunner) logRecv(c string, raw []byte) {
 			}
 			if json.Unmarshal(m["parameters"], &info) == nil && info.Vendor == "ven" && info.Product == "prod" &&
 				info.Version == "ver" && info.URL == "http://u" &&
-				strings.Join(info.Interfaces, ",") == "org.varlink.service,a.b,a.b.c" {
+				strings.Join(info.Interfaces, ",") == strings.Join(append([]string{"org.varlink.service"}, regNames...), ",") {
 				ev["arg"] = "info"
 			}
 		} else if d, ok := str("description"); ok {
 			ev["arg"] = "description-mismatch"
-			if d == ifaceBDesc {
+			if d == descOf(knownName()) || (len(regNames) == 0 && strings.Contains(d, "interface org.varlink.service")) {
 				ev["arg"] = "description"
 			}
 		}
@@ -387,10 +415,10 @@ func (r *connRunner) logRecv(c string, raw []byte) {
 	r.log.Ev("CR", ev)
 }
 
-func (r *connRunner) runConn(c string, sc *cScen, pad string, seed int64, wg *sync.WaitGroup) {
+func (r *connRunner) runConn(c string, sc *cScen, pad string, seed int64, cut1 int, wg *sync.WaitGroup) {
 	defer wg.Done()
 	rng := rand.New(rand.NewSource(seed))
-	syms := symbols(c, sc, rng, pad)
+	syms := symbols(c, sc, rng, pad, cut1)
 	conn, err := r.dial()
 	if err != nil {
 		r.log.Ev("DIALFAIL", tr.M{"c": c, "err": err.Error()})
@@ -449,6 +477,8 @@ func cmdConn(args []string) int {
 	seed := fs.Int64("seed", 1, "seed for concretisation")
 	multi := fs.Bool("multi", false, "scenario lines are objects keyed by connection id")
 	sockdir := fs.String("sockdir", "", "directory for the unix socket (default: abstract)")
+	regFlag := fs.String("reg", "a.b,a.b.c", "comma separated interface names to register (U1.. stand for non-ASCII characters)")
+	allcuts := fs.Bool("allcuts", false, "run each scenario whose first frame has two body symbols once per byte offset of the cut")
 	fs.Parse(args)
 
 	log, err := tr.Open(*out)
@@ -457,13 +487,16 @@ func cmdConn(args []string) int {
 		return 2
 	}
 	svc, _ := varlink.NewService("ven", "prod", "ver", "http://u")
-	if err := svc.RegisterInterface(&scripted{name: "a.b", desc: ifaceADesc, log: log}); err != nil {
-		fmt.Fprintln(os.Stderr, err)
-		return 2
-	}
-	if err := svc.RegisterInterface(&scripted{name: "a.b.c", desc: ifaceBDesc, log: log}); err != nil {
-		fmt.Fprintln(os.Stderr, err)
-		return 2
+	regNames = nil
+	if *regFlag != "" {
+		for _, n := range strings.Split(*regFlag, ",") {
+			n = joinChars(splitTok(n))
+			regNames = append(regNames, n)
+			if err := svc.RegisterInterface(&scripted{name: n, desc: descOf(n), log: log}); err != nil {
+				fmt.Fprintln(os.Stderr, err)
+				return 2
+			}
+		}
 	}
 	name := fmt.Sprintf("@verif-conn-%d-%d", os.Getpid(), *seed)
 	if *sockdir != "" {
@@ -516,35 +549,52 @@ func cmdConn(args []string) int {
 		} else {
 			raw = json.RawMessage(`{"c1":` + string(line) + `}`)
 		}
-		log.Raw([]byte(`{"ev":"Reset","scen":` + string(raw) + `}`))
-		pad := strings.Repeat("x", pads[r.rng.Intn(len(pads))])
-		var wg sync.WaitGroup
 		ids := make([]string, 0, len(scens))
 		for c := range scens {
 			ids = append(ids, c)
 		}
 		sort.Strings(ids)
-		for _, c := range ids {
-			wg.Add(1)
-			go r.runConn(c, scens[c], pad, r.rng.Int63(), &wg)
+		cutsToRun := []int{0}
+		if *allcuts && len(scens["c1"].Frames) > 0 && scens["c1"].Frames[0].Nb == 2 {
+			l := len(frameBytes("c1", 1, &scens["c1"].Frames[0], rand.New(rand.NewSource(1)), ""))
+			cutsToRun = nil
+			for k := 1; k < l; k++ {
+				cutsToRun = append(cutsToRun, k)
+			}
 		}
-		wg.Wait()
-		dialed += int64(len(ids))
-		// quiescence: the service has closed every connection dialled so far and
-		// released it (or never will: then the sample says so)
-		deadline := time.Now().Add(10 * time.Second)
-		for cl.Closed() < dialed && time.Now().Before(deadline) {
-			time.Sleep(100 * time.Microsecond)
+		for _, cut1 := range cutsToRun {
+			log.Raw([]byte(`{"ev":"Reset","scen":` + string(raw) + `}`))
+			pad := strings.Repeat("x", pads[r.rng.Intn(len(pads))])
+			if cut1 > 0 {
+				pad = ""
+			}
+			var wg sync.WaitGroup
+			for _, c := range ids {
+				wg.Add(1)
+				sd := r.rng.Int63()
+				if cut1 > 0 {
+					sd = 1 // the same concrete frame for every cut
+				}
+				go r.runConn(c, scens[c], pad, sd, cut1, &wg)
+			}
+			wg.Wait()
+			dialed += int64(len(ids))
+			// quiescence: the service has closed every connection dialled so far and
+			// released it (or never will: then the sample says so)
+			deadline := time.Now().Add(10 * time.Second)
+			for cl.Closed() < dialed && time.Now().Before(deadline) {
+				time.Sleep(100 * time.Microsecond)
+			}
+			if cl.Closed() < dialed {
+				log.Ev("HANG", tr.M{"c": "c1", "what": fmt.Sprintf("service closed %d of %d connections within 10s", cl.Closed(), dialed)})
+			}
+			n := svc.VerifActiveConns()
+			for n != 0 && time.Now().Before(deadline) {
+				time.Sleep(100 * time.Microsecond)
+				n = svc.VerifActiveConns()
+			}
+			log.Ev("ACT", tr.M{"n": n})
 		}
-		if cl.Closed() < dialed {
-			log.Ev("HANG", tr.M{"c": "c1", "what": fmt.Sprintf("service closed %d of %d connections within 10s", cl.Closed(), dialed)})
-		}
-		n := svc.VerifActiveConns()
-		for n != 0 && time.Now().Before(deadline) {
-			time.Sleep(100 * time.Microsecond)
-			n = svc.VerifActiveConns()
-		}
-		log.Ev("ACT", tr.M{"n": n})
 		nscen++
 	}
 	svc.Shutdown()
